@@ -51,6 +51,9 @@ Allowed(st, ev) ==
          st.own[ev.o] # None /\ st.own[ev.o2] = None /\ ev.out = "ok"
     [] ev.e = "omovea" ->
          st.own[ev.o] # None /\ st.own[ev.o2] # None /\ ev.out = "ok"
+    \* the token presented to ANOTHER live sandbox of the same type, which has registered nothing:
+    \* tokens are per sandbox
+    [] ev.e = "xlookup" -> ev.out = "abort"
     [] ev.e = "olookup" ->
          /\ st.own[ev.o] \notin {None, 0}
          /\ ev.out = "ok" /\ ev.p = st.live[st.own[ev.o]] /\ ev.t = st.own[ev.o]
